@@ -61,7 +61,7 @@ func (p *storeProp) ID() string { return p.id }
 func (p *storeProp) Rule() string {
 	switch p.id {
 	case "C06":
-		return "scenario = operation history (5-40 ops) over a universe of <=10 nodes and 4 references on one store kind, sequential (step-by-step equality with the reference model plus full observable-state comparison after every step) or split over 2-4 tasks under a seeded schedule (porcupine check of the recorded history plus read-back against the model); non-trivial = at least one state-changing operation succeeded and one was refused, or >=2 tasks interleaved; distinct = distinct (event-trace hash, final model state)"
+		return "scenario = operation history (5-40 ops) over a universe of <=10 nodes and 4 references on one store kind, on one store kind (OCI layouts with AutoGC in a quarter of the scenarios), sequential (step-by-step equality with the reference model plus full observable-state comparison after every step) or split over 2-4 tasks under a seeded schedule (porcupine check of the recorded history plus read-back against the model); non-trivial = at least one state-changing operation succeeded and one was refused, or >=2 tasks interleaved; distinct = distinct (event-trace hash, final model state)"
 	case "C07":
 		return "scenario = DAG pushed in a drawn order (sequential or from 2-4 tasks), then deletes/GC/reopen; after every step Predecessors of every universe node is compared with ground truth restricted to stored parents; non-trivial = some node had >=1 predecessor at some step; distinct = distinct (event-trace hash, final state)"
 	case "C08":
@@ -275,7 +275,7 @@ func (p *storeProp) Gen(r *Rand, tier string, idx int) any {
 	if sp.Kind == "oci" {
 		switch p.id {
 		case "C06":
-			sp.AutoGC = false
+			sp.AutoGC = r.Chance(0.25) // what Delete takes along then is part of the model (as in C09)
 		case "C09":
 			sp.AutoGC = r.Chance(0.7)
 		default:
@@ -337,6 +337,7 @@ func (p *storeProp) Gen(r *Rand, tier string, idx int) any {
 		}
 	}
 	pushed := 0
+	var taggedNodes []int
 	for len(sp.Ops) < nops {
 		var op SOp
 		if pushed < nn && r.Chance(0.55) {
@@ -344,6 +345,12 @@ func (p *storeProp) Gen(r *Rand, tier string, idx int) any {
 			pushed++
 		} else if r.Chance(0.6) {
 			op = SOp{Op: pick(r, mutators), Node: r.Intn(nn), Ref: randRef()}
+			if op.Op == "tag" && len(taggedNodes) > 0 && r.Chance(0.2) {
+				op.Node = pick(r, taggedNodes) // one more name for content that has one already
+			}
+			if op.Op == "tag" {
+				taggedNodes = append(taggedNodes, op.Node)
+			}
 			if op.Op == "tag" && r.Chance(0.3) {
 				op.Var = r.Range(1, 2) // same content, other descriptor annotations
 			} else if op.Op == "tag" && r.Chance(0.2) {
@@ -654,8 +661,8 @@ func (sr *storeRun) sequential() *Verdict {
 				// nothing: only then is a cancelled GC issued, and it must change nothing.
 				full := sr.model.Clone()
 				full.gc()
-				if full.Key() != sr.model.Key() || sr.blobListingDiff() != "" {
-					continue
+				if sr.faulted || full.Key() != sr.model.Key() || sr.blobListingDiff() != "" {
+					continue // (after an injected disk error the model no longer tells what the store holds)
 				}
 				sr.info.Probes["gc_under_cancelled_context"]++
 			}
